@@ -108,4 +108,15 @@ CHECKS = {
              "observed notification list must equal the reference list exactly (time and kind).",
         note=_TB + "; dyadic durations make clock arithmetic exact",
     ),
+    "C10": dict(
+        engine="E2 deviation-bounded", level="model_checking", design_ref="5/C10",
+        technique="deviation-bounded stateless exploration: all schedules with <=2 control events / FindService placed at every discovered timer instant (-eps, pre, post, +eps) over 80+ timing configurations; generated reference timeline",
+        text="For every timing configuration (initial window x choice, 0..2 repetitions, cyclic or not, finite/infinite TTL, "
+             "collection timeout zero or not, one or two instances, the SimpleService helper) the default schedule and all "
+             "schedules with one disturbance (announcer stop/start, stop-again, service stop/start, connection loss, unicast / "
+             "multicast FindService) at every timer instant discovered from the run are executed to the horizon on the "
+             "real announcer; two disturbances for a sub-family (all base configurations in the thorough tier). The wire "
+             "is decoded by an independent decoder and aligned with a generated reference timeline.",
+        note=_TB + "; random.uniform is an explorer choice over {min, max}",
+    ),
 }
